@@ -30,7 +30,7 @@ const (
 	sigBTMEmpty   = "binary_tree_merge|query-spans-two-or-more-shards|empty-answer"
 	sigBTMPanic   = "binary_tree_merge|selector-over-two-or-more-shards|runtime panic: slice bounds out of range in the merge iterator"
 	sigMetaFill   = "metamorphic-only|bytime-fill-split-across-chunks|cells-differ"
-	sigPhantomAgg = "field-filter|aggregate-of-a-field-that-is-null-in-passing-rows|lost-shifted-or-phantom-windows"
+	sigPhantomAgg = "field-filter|aggregate|null-row-for-a-window-whose-passing-rows-have-no-value-of-the-aggregated-field"
 )
 
 // bucketsInRange: number of GROUP BY time buckets of the query range.
@@ -89,24 +89,42 @@ func rowTime(row []any) (int64, bool) {
 func attribute(q *querySpec, cl cell, rows []mrow, schema map[string]byte, obs *answer, generic string, mm *mismatch) []finding {
 	var hasTag, hasField bool
 	q.Where.kinds(&hasTag, &hasField)
-	var qk quirks
+	// the defect models that apply to this query, tried alone and together
+	type model1 struct {
+		set  func(*quirks)
+		sig  string
+		what string
+	}
+	var models []model1
 	if !q.Agg && hasField {
-		qk.NullRows = true
+		models = append(models, model1{func(k *quirks) { k.NullRows = true }, sigNullRows, "equals the documented answer plus the rows that pass the filter but have no value in any selected field"})
 	}
 	if q.Agg && q.Interval > 0 && q.Fill == "previous" && cl.Desc {
-		qk.PrevLater = true
+		models = append(models, model1{func(k *quirks) { k.PrevLater = true }, sigPrevLater, "equals the documented answer except that empty buckets take the value of the next later bucket (previous in output order)"})
+	}
+	if q.Agg && hasField {
+		models = append(models, model1{func(k *quirks) { k.PhantomNull = true }, sigPhantomAgg, "equals the documented answer plus null rows for groups / fill(none) buckets whose rows pass the filter but have no value of the aggregated field"})
+	}
+	var qk quirks
+	for mask := 1; mask < 1<<len(models); mask++ {
+		var k quirks
+		var fs []finding
+		for i, m := range models {
+			if mask&(1<<i) != 0 {
+				m.set(&k)
+				fs = append(fs, finding{m.sig, m.what})
+			}
+		}
+		if checkReference(evaluate(q, rows, schema, cl.Desc, k), obs) == nil {
+			return fs
+		}
+	}
+	for _, m := range models {
+		m.set(&qk)
 	}
 	base := evaluate(q, rows, schema, cl.Desc, qk)
 	if cl.BTM && len(obs.Series) == 0 && len(base.Series) > 0 {
 		return []finding{{sigBTMEmpty, mm.String()}}
-	}
-	if qk != (quirks{}) {
-		if checkReference(base, obs) == nil {
-			if qk.NullRows {
-				return []finding{{sigNullRows, "equals the documented answer plus the rows that pass the filter but have no value in any selected field"}}
-			}
-			return []finding{{sigPrevLater, "equals the documented answer except that empty buckets take the value of the next later bucket (previous in output order)"}}
-		}
 	}
 	unexplained := []finding{{generic, mm.String()}}
 	if os.Getenv("VERIF_C08_DEBUG") == "2" && qk != (quirks{}) {
@@ -118,13 +136,19 @@ func attribute(q *querySpec, cl cell, rows []mrow, schema map[string]byte, obs *
 		}
 		return unexplained
 	}
-	if hasField && nullInPassingRows(q, rows) {
-		return []finding{{sigPhantomAgg, mm.String()}}
-	}
 	// row-level attribution against the expectation under the deterministic defect models
 	causes := map[string]string{}
-	if qk.PrevLater {
-		causes[sigPrevLater] = "empty buckets take the value of the next later bucket"
+	// a deterministic defect model that changes the expectation is part of the explanation
+	for i, m := range models {
+		var k quirks
+		for j, m2 := range models {
+			if j != i {
+				m2.set(&k)
+			}
+		}
+		if !sameExpectation(base, evaluate(q, rows, schema, cl.Desc, k)) {
+			causes[m.sig] = m.what
+		}
 	}
 	obsBy := map[string]*obsSeries{}
 	for i := range obs.Series {
@@ -277,6 +301,24 @@ func rowsOfFullAnswer(q *querySpec, rows []mrow, schema map[string]byte, desc bo
 			return false
 		}
 		last = vals[0].I
+	}
+	return true
+}
+
+func sameExpectation(a, b *expected) bool {
+	if len(a.Series) != len(b.Series) {
+		return false
+	}
+	for i := range a.Series {
+		x, y := a.Series[i], b.Series[i]
+		if x.Key != y.Key || len(x.Groups) != len(y.Groups) {
+			return false
+		}
+		for j := range x.Groups {
+			if altsText(x.Groups[j].Alts, 1) != altsText(y.Groups[j].Alts, 1) {
+				return false
+			}
+		}
 	}
 	return true
 }
